@@ -2,8 +2,10 @@
 the engine interposes mkstemp/ftruncate/mmap and enumerates (A) all sets of
 <= k failing call indexes and (B) persistent failure of every subset of call
 classes, crossed with configuration vectors; one process per vector."""
+import glob
 import os
 import shutil
+import time
 import vlib
 
 
@@ -15,8 +17,18 @@ def run(ctx):
     deadline = ctx["deadline"] or (300 if tier == "quick" else 1800)
     nsh = vlib.NCPU * 3
     args = [["--tier", tier, "--shard", i, "--nshards", nsh, "--scratch", scratch] for i in range(nsh)]
+    t_start = time.time()
     res = vlib.run_shards(exe, args, env, timeout=deadline, label="xfault")
     shutil.rmtree(scratch, ignore_errors=True)
+    # with every directory variable unset the library falls back to /tmp, and under ORC_CODE=debug it keeps its
+    # code-memory file by design: remove the files this run left there (own files created since the start only)
+    for f in glob.glob("/tmp/orcexec.*"):
+        try:
+            st_ = os.lstat(f)
+            if st_.st_uid == os.getuid() and st_.st_mtime >= t_start - 2:
+                os.unlink(f)
+        except OSError:
+            pass
     st = res.stats
     n = int(st.get("vectors", 0))
     cov = {
